@@ -328,7 +328,7 @@ def status (args : List String) (obs : String) : Verdict :=
     | .statusResponse js => strOf js
     | .pong pl => "P:" ++ hexOfNat 16 pl.toNat
     | _ => "?"
-  if mode == "tcp" then
+  if mode.startsWith "tcp" then   -- tcp / tcpto / tcpctx / tcpdl: every public entry point, same expectation
     let s := Gate.run cfg 16 (Gate.initPing [] 0 (BitVec.ofNat 64 payload))
     let model := match s.client.phase with
       | .pinged js _ => s!"r={strOf js},P:echo"
